@@ -7,6 +7,7 @@
 #include "tpmon.h"
 #include <sys/socket.h>
 #include <sys/wait.h>
+#include <signal.h>
 
 enum { EV_TFD_CREATE = 1, EV_TFD_SETTIME, EV_EPOLL_CTL, EV_RC, EV_VIOL, EV_FIRE, EV_STEP, EV_NOTE, EV_TIMEOUT };
 enum { V_FIRE_UNREGISTERED = 1, V_FIRE_DISABLED, V_FIRE_ONESHOT_TWICE, V_FIRE_DISPATCH_NOT_REENABLED, V_FIRE_NO_CONDITION,
@@ -254,7 +255,13 @@ int main(void) {
 	in.p = c; in.n = len; in.o = 0; in.bad = 0;
 	seed = vin_u64(&in); mode = vin_u8(&in);
 	tm_scn_seed = seed; tm_tid = 999;
-	if (mode == 3) { prefork_kids(); g_external = vin_u8(&in); }
+	if (mode == 3) {
+		g_external = vin_u8(&in);
+		/* bit 2: the exit status of the watched children cannot be collected (SIGCHLD ignored, waitpid() fails with ECHILD):
+		 * the process event must be delivered all the same */
+		if (g_external & 4) signal(SIGCHLD, SIG_IGN);
+		prefork_kids();
+	}
 	tp_settings_def(&s); s.threads_max = (mode == 3 && (g_external & 2)) ? 1 : 2; s.flags = 0; s.tpt_on_start = on_start;
 	rc = tp_create(&s, &g_tp); if (rc) { fprintf(stderr, "tp_create rc=%d\n", rc); return 3; }
 	vout_u32(&o, 0xC06C06); vout_u8(&o, (uint8_t)mode);
